@@ -10,6 +10,8 @@ desc = {
        actor:    create name body | edit name patch | delete name | force_remove name | status name patch
        operator: start inc | stop inc | kill inc | cancel inc
        server:   compact | break how | bookmark
+       peers:    peer identity priority lifetime | unpeer identity     (a foreign operator's record in the peering object; needs 'peering')
+  'peering': {'name': 'default'}            # cluster-wide peering object; operators are then NOT standalone
   'faults': [{'client': inc|None, 'match': {'kind': 'patch', ...}, 'nth': k|None, 'actions': [[kind, {...}], ...]}]
   'lag': {'plural': 'kopfexamples', 'values': [0.0, 0.3], 'only_client': None}
   'restart_after_kill': {'delay': 1.0, 'max': 3} | None
@@ -99,6 +101,9 @@ def run_world(desc: dict[str, Any], *, scoped: bool = True, capture_logs: bool =
     w = World(desc)
     res = {'kex': [fakekube.KEX], 'kex_s': [fakekube.KEX_S]}[desc.get('resources', 'kex')]
     extra = desc.get('extra_resources') or []
+    peering = desc.get('peering')
+    if peering:
+        res = res + [fakekube.CLUSTER_PEERING]
     sim = Sim(resources=res + [fakekube.resdef(**r) for r in extra], seed=desc.get('seed', 0), scoped=scoped, capture_logs=capture_logs,
               namespaces=tuple(desc.get('namespaces', ['ns1'])), **(desc.get('kube') or {}))
     w.sim = sim
@@ -110,6 +115,10 @@ def run_world(desc: dict[str, Any], *, scoped: bool = True, capture_logs: bool =
 
     def mk_settings() -> Any:
         s = sim.settings(**(desc.get('settings') or {}))
+        if peering:
+            s.peering.standalone = False
+            s.peering.mandatory = True
+            s.peering.name = peering.get('name', 'default')
         make_storage(s, desc.get('storage', 'default'), desc.get('prefix'))
         return s
 
@@ -191,6 +200,13 @@ def run_world(desc: dict[str, Any], *, scoped: bool = True, capture_logs: bool =
             if cur is not None:
                 fins = [f for f in (cur['metadata'].get('finalizers') or []) if f != op[2]]
                 kube.edit(plural, ns, op[1], {'metadata': {'finalizers': fins or None}})
+        elif kind == 'peer':
+            from kv import vtime
+            rec = {'priority': op[2], 'lifetime': op[3], 'lastseen': vtime.iso(sim.now())}
+            rec.update(op[4] if len(op) > 4 and op[4] else {})
+            kube.edit('clusterkopfpeerings', None, peering.get('name', 'default'), {'status': {op[1]: rec}})
+        elif kind == 'unpeer':
+            kube.edit('clusterkopfpeerings', None, peering.get('name', 'default'), {'status': {op[1]: None}})
         elif kind == 'compact':
             kube.compact(plural)
         elif kind == 'break':
@@ -220,6 +236,8 @@ def run_world(desc: dict[str, Any], *, scoped: bool = True, capture_logs: bool =
         return inc
 
     async def scenario(sim: Sim) -> None:
+        if peering:
+            kube.create('clusterkopfpeerings', None, peering.get('name', 'default'), {'apiVersion': 'kopf.dev/v1', 'kind': 'ClusterKopfPeering'})
         for t, op, *args in desc.get('timeline', []):
             await sim.sleep_until(t)
             if op == 'start':
